@@ -565,6 +565,8 @@ class _FakePythonApi:
                     if d is None and sched.rng is not None:
                         d = sched.rng.choice([0, 0, 0, 1, 2])
                     st.pending_delay = d or 0
+                    if 'delay' not in st.sent_site:
+                        st.sent_site['delay'] = st.pending_delay     # own events the thread still executes before it lands
                     sched.async_sent += 1
                 n += 1
         return n
